@@ -18,6 +18,18 @@ Conjugate(M, U) == GMatMul(GMatMul(U, M), GDagger(U))
 ToG(M) == [r \in 1..Len(M) |-> [c \in 1..Len(M) |-> <<M[r][c], 0>>]]
 \* partial transpose on the second qubit of a 4x4 Gaussian-integer matrix
 PT4(M) == [r \in 1..4 |-> [c \in 1..4 |-> M[((r - 1) \div 2) * 2 + ((c - 1) % 2) + 1][((c - 1) \div 2) * 2 + ((r - 1) % 2) + 1]]]
+\* X states: rho = 1/N [[s1^2, 0, 0, w], [0, s2^2, z, 0], [0, conj z, s3^2, 0], [conj w, 0, 0, s4^2]],  N = sum s_i^2, with w, z on the real or
+\* imaginary axis (so |w|, |z| are integers).  rho >= 0 iff |w| <= s1 s4 and |z| <= s2 s3.  Closed forms (Yu-Eberly):
+\*     C = 2 max(0, |w| - s2 s3, |z| - s1 s4) / N,      NPT  <=>  |w| > s2 s3  or  |z| > s1 s4   <=>  C > 0.
+\* X states are not local-unitarily equivalent to Bell-diagonal states in general (their marginals are not maximally mixed).
+AxAbs(w) == (IF w[1] < 0 THEN -w[1] ELSE w[1]) + (IF w[2] < 0 THEN -w[2] ELSE w[2])
+XN(sq) == sq[1] * sq[1] + sq[2] * sq[2] + sq[3] * sq[3] + sq[4] * sq[4]
+XRho(sq, w, z) == <<<<<<sq[1] * sq[1], 0>>, GZero, GZero, w>>, <<GZero, <<sq[2] * sq[2], 0>>, z, GZero>>,
+                    <<GZero, GConj(z), <<sq[3] * sq[3], 0>>, GZero>>, <<GConj(w), GZero, GZero, <<sq[4] * sq[4], 0>>>>>>      \* times N
+XValid(sq, w, z) == XN(sq) > 0 /\ (w[1] = 0 \/ w[2] = 0) /\ (z[1] = 0 \/ z[2] = 0) /\ AxAbs(w) <= sq[1] * sq[4] /\ AxAbs(z) <= sq[2] * sq[3]
+Max3(a, b, c) == IF a >= b /\ a >= c THEN a ELSE IF b >= c THEN b ELSE c
+XC(sq, w, z) == R(2 * Max3(0, AxAbs(w) - sq[2] * sq[3], AxAbs(z) - sq[1] * sq[4]), XN(sq))
+XNPT(sq, w, z) == AxAbs(w) > sq[2] * sq[3] \/ AxAbs(z) > sq[1] * sq[4]
 \* pure states
 PureC2(psi) == LET det == GAdd(GMul(psi[1], psi[4]), GNeg(GMul(psi[2], psi[3])))
                    n2 == GSum([i \in 1..4 |-> GMul(GConj(psi[i]), psi[i])])[1]
